@@ -8,6 +8,7 @@ package c18
 // installed height, valid next headers, the account allowed to update).
 
 import (
+	"os"
 	"fmt"
 	"math/rand"
 	"strconv"
@@ -324,6 +325,9 @@ func (e *env) nextHeader(rng *rand.Rand, in *inst) (hdr exported.Header, signer 
 		h := in.bsc.child(rng, nil)
 		if h == nil {
 			return nil, nil, nil, fmt.Errorf("bsc generator: no eligible sealer")
+		}
+		if os.Getenv("C18_DEBUG") != "" {
+			fmt.Printf("BSCDBG next=%d signer=%x cur=%d pend=%d recents=%v epoch=%d\n", h.Height.RevisionHeight, h.Coinbase[:4], len(in.bsc.cur), len(in.bsc.pend), in.bsc.recents, in.bsc.epoch)
 		}
 		return h, e.relayer, func() { in.bsc.apply(h) }, nil
 	case tETH:
